@@ -135,3 +135,11 @@ check(
     "bounded-exhaustive option product + Hypothesis names/functions vs. expected lines built from the declared sub-forest",
     "DESIGN.md section 4 C13",
 )
+check(
+    "C17",
+    "exploration",
+    "Node classes are generated: any subset of the 12 comparison/hash/bool/container special methods with adversarial-constant, raising or unhashable behaviour on three bases (Node, a NodeMixin class, a slotted LightNodeMixin class), optionally mixed with plain nodes in one forest. A generated mutation history and afterwards every read-only API (navigation, util, iterators, search, Walker, Resolver get/glob, RenderTree, Dot/UniqueDot/Mermaid/Dict/Json exporters) run on the generated class and on a plain class; label-mapped results and exception classes must be equal and the generated methods' invocation counters must stay 0. Each single method x behaviour x base is covered systematically.",
+    "Differential oracle (plain class of the same base); the harness touches nodes only by identity. Defects D6a and D6b repaired (fix: e819994, bb01c9a).",
+    "generated adversarial classes x Hypothesis histories, differential vs. plain class + never-invoked counters",
+    "DESIGN.md section 4 C17",
+)
